@@ -40,7 +40,7 @@ STYLES = ("short", "medium", "full")
 # enumeration bounds, in one place ---------------------------------------------------------------
 BOUNDS = {
     "quick": dict(full_vals=3, full_pairs=False, pair_all=None, pair_group=(3, 1), pair_lists=(2, 1), triples=None, copy_vals=2, doc_pre=True),
-    "thorough": dict(full_vals=None, full_pairs=True, pair_all=(2, 1), pair_group=(10, 3), pair_lists=(6, 2), triples=(2, 0), copy_vals=6, doc_pre=True),
+    "thorough": dict(full_vals=None, full_pairs=True, pair_all=(2, 1), pair_group=(6, 2), pair_lists=(4, 1), triples=(2, 0), copy_vals=6, doc_pre=True),
 }
 BATCH = 24
 
@@ -885,21 +885,21 @@ def build_cases(ctx):
     info["groups"] = {g: len(m) for g, m in G.items()}
     seen = set()
 
-    def pairs(members, k):
+    def pairs(members, k, full=False):
         for a, b in itertools.combinations(members, 2):
             for va in reduced(a, k):
                 for vb in reduced(b, k):
                     c = {"kind": "dev", "assign": [[a, va], [b, vb]]}
-                    if not B["full_pairs"]:
-                        c["styles"] = ["short", "medium"]
-                    h = core.jhash(c)
+                    if not full:
+                        c["styles"] = ["short", "medium"]  # the full style differs only by the defaults it lists
+                    h = core.jhash(c["assign"])
                     if h not in seen:
                         seen.add(h)
                         cases.append(c)
 
-    pairs(G["cycles"], B["pair_group"])
-    pairs(G["xs"], B["pair_group"])
-    pairs(G["lists"], B["pair_lists"])
+    pairs(G["cycles"], B["pair_group"], B["full_pairs"])
+    pairs(G["xs"], B["pair_group"], B["full_pairs"])
+    pairs(G["lists"], B["pair_lists"], B["full_pairs"])
     # a fixed covering of the remaining pairs: every setting with its 3 successors (quick), all pairs (thorough)
     if B["pair_all"]:
         pairs(names, B["pair_all"])
